@@ -521,6 +521,16 @@ func (b *Built) resolver(tn string, fd FieldDef) graphql.FieldResolveFn {
 				l[1] = wrongKind{X: []int{1}}
 			}
 			return v, nil
+		case "titems":
+			// a list whose ITEMS are deferred values
+			v := nat()
+			if l, ok := v.([]interface{}); ok {
+				for i := range l {
+					el := l[i]
+					l[i] = func() (interface{}, error) { return el, nil }
+				}
+			}
+			return v, nil
 		case "nilitem":
 			v := nat()
 			if l, ok := v.([]interface{}); ok && len(l) >= 2 {
